@@ -186,7 +186,7 @@ func vpC02Each(msg Hash, keys []*Key, sigs []*Signature) (bool, int) {
 }
 
 func TestVP_C02_batch_agree(t *testing.T) {
-	col := kit.New(t, "C02", "rapid (package crypto): 1..64 (key, signature) entries over one message, honest signatures from seed-derived keys (one in six vectors reuses keys), then 0..3 entries corrupted (wrong/bit-flipped R, s+l, s bit flip, small-order / identity / torsion-shifted / non-canonical R or key with the matching cofactor-only forgery, other message, other key, swapped pair, nil key, nil signature, zero signature) at first/last/random positions, or the two slices given different lengths; oracle: BatchVerify == AND of Key.Verify per entry (missing entry counts as failing); non-trivial = >=2 entries; distinct by seed+layout")
+	col := kit.New(t, "C02", "rapid (package crypto): 1..64 (key, signature) entries over one message, honest signatures from seed-derived keys (one in six vectors reuses keys), then 0..3 entries corrupted (wrong/bit-flipped R, s+l, s bit flip, small-order / identity / torsion-shifted / non-canonical R or key with the matching cofactor-only forgery, other message, other key, swapped pair, compensating pair s_i+d / s_j-d, nil key, nil signature, zero signature) at first/last/random positions, or the two slices given different lengths; oracle: BatchVerify == AND of Key.Verify per entry (missing entry counts as failing); non-trivial = >=2 entries; distinct by seed+layout")
 	col.Require("all-valid", "some-invalid", "entries>=2", "entries=64", "entries=1", "corrupt-first", "corrupt-last", "length-mismatch", "dup-keys")
 	for _, k := range vpC02Kinds {
 		col.Require("kind-" + k)
